@@ -294,7 +294,7 @@ class Groupings(Family):
     """(d) every valid grouping"""
     name = 'groupings'
     timeout = 60.0
-    rule = ('every grouping (surjection of <=5 [quick 4] positions onto groups 1..g) the documentation allows: unordered '
+    rule = ('every grouping (surjection of <=5 [quick 4] positions onto groups 1..g, plus 6 boxes in 2 groups of 3) the documentation allows: unordered '
             'outer => equal group sizes and a nested ListGrader (inner ordered or unordered); ordered outer => list of '
             'subgraders (ListGrader for groups of >1); leaf credits: input j matches answer j with distinct credit and a '
             'neighbour answer with a quarter of it; ALL orders of the inputs inside the flat submission; every entry must sit '
@@ -303,6 +303,12 @@ class Groupings(Family):
 
     def cases(self, tier):
         maxlen = 4 if tier == 'quick' else 5
+        # 6 boxes in 2 groups of 3 (more boxes per group than groups): block layout in both tiers, every layout in thorough
+        six = [(1, 1, 1, 2, 2, 2)] if tier == 'quick' else [g for g in surjections(6, 2) if g.count(1) == 3 and g[0] == 1]
+        for grouping in six:
+            for inner_ordered in (False, True):
+                for perm in itertools.permutations(range(6)):
+                    yield (grouping, False, inner_ordered, perm)
         for length in range(2, maxlen + 1):
             for grouping in surjections(length, length):
                 sizes = [grouping.count(g) for g in range(1, max(grouping) + 1)]
